@@ -26,6 +26,7 @@ EXPLANATION = (
     "pruning oracle on [compound-or-simple statement, statement] (a statement is dropped only after "
     "one that cannot complete normally) and the strict, refreshed counter comparison; C05-R4 also "
     "requires the counter getter to read the volatile counter when polled (no captured snapshot)."
+    ' C05-R6: lowered expressions are placed, never inspected. C05-R7: the rewritten test of a while loop ends up where its TRUTH is asked (predicate of takewhile/filter, comprehension if, and/or/not, conditional expression), not where a value is compared or passed on.'
 )
 ASSUMPTIONS = [
     "the guard-insertion algorithm is validated structurally only, not proved for every nesting",
